@@ -8,6 +8,8 @@ import MpVerif.Gen.SolGuards
 `fx = true` the code as it is since ampl/mp 602adf1 (`fx = false`: before), `fm` = with/without repo_patches/C14-badoptions-message.diff.  Reals go through the abstract codec
 `c : Codec D` (`enc` = fmt's `'{:.16}'`); integers are printed by the concrete `encInt`.
 
+The specification (`Wf`, `observable`, the text model of integral reals) is in `Spec.lean`.
+
 `C05_roundtrip` is the full-strength statement: for **every** solution (message, options, vectors of any
 length, objno, status, any list of suffixes with sparse values and multi-line tables) that meets the side
 conditions `Wf`, for every declared size ≥ the vector lengths and for both reader variants, reading the
@@ -57,6 +59,34 @@ theorem C05_vector_roundtrip {D : Type} (c : Codec D) (vs : List D) (rest : Byte
       (⟨vs.length, vs.map (fun v => ⟨0, c.enc v⟩), .ok, 0⟩, rest) :=
   runVec_vals c vs rest h
 
+/-! ## numeric clause: integers and integral reals below 10^15 come back exactly -/
+
+/-- **Integral reals.**  For every integer `n` with `|n| < 10^15` the text the writer prints for the double `n` (`encIntegralReal`, tied to the real writer
+on every run) satisfies both codec hypotheses *unconditionally* (the reader accepts it and consumes exactly that text, as a vector value and as a suffix
+value), its exact decimal value is `n`, and `|n| < 2^53`, i.e. `n` is a double: the correctly rounded `strtod` (trusted: glibc) therefore returns exactly `n`. -/
+theorem C05_integer_real_exact (n : Int) (h : n.natAbs < 10 ^ 15) :
+    GoodNum (encIntegralReal n) ∧ GoodSufTok (encIntegralReal n) ∧ intTextValue (encIntegralReal n) = some n ∧ n.natAbs < 2 ^ 53 := by
+  refine ⟨goodNum_encInt n h, goodSufTok_encInt' n h, intTextValue_encInt n, ?_⟩
+  have : (10 : Nat) ^ 15 < 2 ^ 53 := by decide
+  omega
+
+/-- the codec of integral reals: no hypothesis left -/
+def intCodec : Codec Int := ⟨encIntegralReal, fun n => n == 0⟩
+
+/-- **Vectors of integral reals of any length come back exactly** (no codec hypothesis): the handler receives, in order, texts whose exact values are the written integers. -/
+theorem C05_integer_vector_exact (ns : List Int) (rest : Bytes) (h : ∀ n ∈ ns, n.natAbs < 10 ^ 15) :
+    runVec false .dbl .all ns.length (writeVals intCodec ns ++ rest) =
+      (⟨ns.length, ns.map (fun n => ⟨0, encIntegralReal n⟩), .ok, 0⟩, rest) ∧
+    ∀ n ∈ ns, intTextValue (encIntegralReal n) = some n :=
+  ⟨runVec_vals intCodec ns rest (fun n hn => goodNum_encInt n (h n hn)), fun n _ => intTextValue_encInt n⟩
+
+/- Full-strength statement for the other finite reals (NOT provable here: it is about fmt's digit generation and strtod's rounding, which are outside the
+model): `|strtod (enc x) - x| ≤ 1e-15 * |x|`.  Proved instead, under the explicit codec hypothesis on the printed text (evaluated by the driver on every real of
+every run); the numeric half is tested on 10^5 / 5·10^6 doubles per run. -/
+theorem C05_noninteger_real_partial {D : Type} (c : Codec D) (x : D) (rest : Bytes) (h : GoodNum (c.enc x)) :
+    readItem false .dbl (c.enc x ++ 10 :: rest) = (.ok ⟨0, c.enc x⟩, rest) :=
+  readItem_num (c.enc x) rest h
+
 /-- integer suffix values in the C `int` range always satisfy the hypotheses on suffix entries … -/
 theorem C05_int_entries_good (vs : List Int) (h : ∀ v ∈ vs, Int32 v) :
     ∀ e ∈ sparseI 0 vs, e.1 < vs.length ∧ GoodSufTok e.2 := by
@@ -68,11 +98,14 @@ theorem C05_real_entries_good {D : Type} (c : Codec D) (vs : List D)
     ∀ e ∈ sparseD c 0 vs, e.1 < vs.length ∧ GoodSufTok e.2 := by
   intro e he; simpa using sparseD_good c 0 vs h e he
 
+/-- the four texts fmt prints for non-finite doubles -/
+def nonfiniteToks : List Bytes := [str "inf", str "-inf", str "nan", str "-nan"]
+
 /-! ## translator ties (ROUND 4)
 
 `MpVerif.Gen.SolGuards` is regenerated on every run from the tree under test (`translators/gen_solguards.py`): the writer's kind mask and
 OUTPUT filter through clang's typed AST, and (structure tie) the ordered list of format strings of every `print` in include/mp/sol.h. -/
-section gen
+section gen2
 open MpVerif.CSem MpVerif.Gen.SolGuards
 
 /-- the suffix kind printed in the header, `kind & (SUFFIX_KIND_MASK | FLOAT | IODECL)`, = the model's `kindMask` (suffix kinds are flag sets below 128) -/
@@ -85,12 +118,13 @@ theorem C05_gen_is_output : ∀ k : Fin 128, w_is_output (k.val : Int) = .ret (i
 and the suffix kinds are visited in the order of `Sol.sufs` -/
 theorem C05_gen_writer_formats : writer_formats = writerFormats ∧ writer_kind_order = writerKindOrder := by decide
 
-end gen
+/-- the four texts of `nonfiniteToks` are exactly fmt's spellings of non-finite doubles (read from include/mp/format.h on every run), with and without sign -/
+theorem C05_gen_nonfinite_spellings :
+    nonfiniteToks = fmt_nonfinite.flatMap (fun s => [str s, 45 :: str s]) := by decide
+
+end gen2
 
 /-! ## non-finite values -/
-
-/-- the four texts fmt prints for non-finite doubles -/
-def nonfiniteToks : List Bytes := [str "inf", str "-inf", str "nan", str "-nan"]
 
 /-- `decstring` rejects every non-finite text (the last consumed character is a letter) … -/
 theorem C05_nonfinite_decstring : ∀ t ∈ nonfiniteToks, decstring (t ++ [10]) = none := by decide
